@@ -435,7 +435,7 @@ def check(fx, rep, tier):
     # is propagated - `?`, the tail / returned value, or an explicit Err exit. An adaptor that flattens Results (`flat_map`,
     # `filter_map(Result::ok)`, `.ok()`) turns a stack underflow into "fewer operands" and the path carries on.
     n_prop3 = 0
-    for ob in [b for i_, b in fx.trait_method_bodies("opcode::Opcode", "execute")] + [b for b in fx.fn_bodies() if b["def"].startswith("opcode::") and b.get("kind") == "fn" and b.get("hir") and not b.get("impl_self")]:
+    for ob in [b for i_, b in fx.trait_method_bodies("opcode::Opcode", "execute")] + [b for b in fx.fn_bodies() if b["def"].startswith("opcode::") and str(b.get("kind")).lower() == "fn" and b.get("hir") and not b.get("impl_self")]:
         root = ob["hir"]["value"]
         for c, cps in F.calls(root):
             ty = (c.get("ty") or "").replace(" ", "")
